@@ -117,7 +117,6 @@ func VerifC05Arith(op int, rep0 int, rep1 int) {
 	case 2:
 		want.Mul(vx, vy)
 	}
-	vrt.Carve("C05-fixnum-overflow-add-sub-mul", rep0 == 0 && rep1 == 0 && !zzC05Fits(want))
 	out := zzC05Call(zzC05Ops[op], x, y)
 	vrt.Reach("called")
 	vrt.Assert(out.class == 0, "arithmetic on integers signalled instead of returning")
@@ -143,8 +142,7 @@ func VerifC05Unary(op int, rep int) {
 	case 3:
 		want.Sub(vx, big.NewInt(1))
 	}
-	vrt.Carve("C05-fixnum-overflow-unary", rep == 0 && !zzC05Fits(want))
-	vrt.Carve("C05-unary-minus-mutates-bignum", rep == 1 && op == 0 && vx.Sign() != 0)
+	vrt.Carve("C05-fixnum-overflow-unary", rep == 0 && op != 0 && !zzC05Fits(want))
 	out := zzC05Call(zzC05Unary[op], x)
 	vrt.Reach("called")
 	vrt.Assert(out.class == 0, "unary arithmetic signalled instead of returning")
@@ -195,7 +193,6 @@ func VerifC05Division(kind int, rep0 int, rep1 int) {
 	x, vx := zzC05Operand("x", rep0)
 	y, vy := zzC05Operand("y", rep1)
 	vrt.Carve("C05-division-by-zero-fault", vy.Sign() == 0)
-	vrt.Assume(vy.Sign() != 0 || true)
 	if vy.Sign() == 0 {
 		out := zzC05Call(zzC05Divs[kind], x, y)
 		vrt.Assert(out.class == 1, "division by zero is not a Lisp condition")
